@@ -1260,7 +1260,7 @@ class RT:
             raise KeyError(k)
 
         def is_i(v):
-            return isinstance(v, int) and not isinstance(v, bool)
+            return type(v) is int
 
         def is_c(v):
             return isinstance(v, str) and len(v) == 1
